@@ -461,17 +461,19 @@ def freeze(case, res):
 
 def shrinks(case):
   import copy
-  frozen = any(ph['sched'].get('replay') for ph in case['phases'])
-  if not frozen:
-    yield from shrink.tree_shrinks(
-        case, {'phases', 'threads', 'ops', 'config', 'probes', 'users'},
-        allow_empty=False)
+  yield from shrink.tree_shrinks(
+      case, {'phases', 'ops', 'config', 'probes', 'users'},
+      allow_empty=True)
   for pi, ph in enumerate(case['phases']):
     rep = ph['sched'].get('replay')
     if rep and rep['switches']:
       for cut in shrink.list_cuts(rep['switches']):
         c = copy.deepcopy(case)
         c['phases'][pi]['sched']['replay']['switches'] = cut
+        yield c
+      if len(rep['switches']) == 1:
+        c = copy.deepcopy(case)
+        c['phases'][pi]['sched']['replay']['switches'] = []
         yield c
     if ph.get('clear_after'):
       c = copy.deepcopy(case)
